@@ -119,7 +119,10 @@ def step(fn, order, nan_in=False, zero=frozenset()):
             else:
                 ce._walk([s], env, [])
     # subscripts of prev_centered with numeric index resolve through env keys written by CEval (name[idx])
-    run_block(stm, env)
+    try:
+        run_block(stm, env)
+    except _Continue:
+        pass                     # `continue` of the time loop: the rest of this step is skipped
     out = [e for e in ce.effects if e.arr in ("outputs", "residuals")]
     if len(out) != 1:
         raise Undecided(f"{len(out)} stores to the output in one step")
